@@ -19,6 +19,7 @@ From Verif.Eco.Conan Require Entry.
 From Verif.Eco.Npm Require Entry.
 From Verif.Eco.Alpm Require Entry.
 From Verif.Eco.Composer Require Entry.
+From Verif.Eco.Cargo Require Entry.
 
 Definition ecosystems : list eco := [
   Cran.Entry.entry;
@@ -38,5 +39,6 @@ Definition ecosystems : list eco := [
   Conan.Entry.entry;
   Npm.Entry.entry;
   Alpm.Entry.entry;
-  Composer.Entry.entry
+  Composer.Entry.entry;
+  Cargo.Entry.entry
 ].
